@@ -108,7 +108,8 @@ def drain_discipline(ctx):
     f = m.method(C, 'disconnect', inherited=False)
     ctx.analysed(f)
     n = 0
-    for c in calls_in(f.node):
+    from sa.lib import deep_calls
+    for c, owner, site in deep_calls(m, f, lambda c: True):
         if not isinstance(c.func, ast.Attribute):
             continue
         recv = c.func.value
@@ -122,7 +123,7 @@ def drain_discipline(ctx):
         if isinstance(st, ast.Assign):
             names = {x.id for t in st.targets for x in ast.walk(t) if isinstance(x, ast.Name) and x.id != '_'}
         loop = next((a for a in ancestors(c) if isinstance(a, (ast.While, ast.For))), None)
-        scope = loop if loop is not None else f.node
+        scope = loop if loop is not None else owner.node
         sets = [x for x in calls_in(scope) if call_attr(x) == 'set' and names & {y.id for y in ast.walk(x.func) if isinstance(y, ast.Name)}]
         ctx.check(bool(names) and bool(sets), f'{f.qualname}:entries drained from {recv.attr} are released', c,
                   'the event of every removed entry is set',
@@ -199,8 +200,9 @@ def shutdown_protocol(ctx):
     ok = isinstance(first, ast.Assign) and src(first.targets[0]) == 'self._running' and isinstance(first.value, ast.Constant) and first.value.value is False
     ctx.check(ok, f'{f.qualname}:running flag cleared first', first, 'self._running = False is the first statement',
               'disconnect does not start by clearing the running flag: worker threads keep looping', f)
+    from sa.lib import deep_calls
     joins = [i for c in calls_in(f.node) if call_attr(c) == 'join' and src(c.func.value) in ('self._txthread', 'self._rxthread') for i in cfg.node_of(c)]
-    drains = [i for c in calls_in(f.node) if call_attr(c) == 'popitem' and 'active_requests' in src(c.func) for i in cfg.node_of(c)]
+    drains = [i for c, o, site in deep_calls(m, f, lambda c: call_attr(c) == 'popitem' and 'active_requests' in src(c.func)) for i in cfg.node_of(site)]
     if not joins or not drains:
         raise AnchorMissing('joins / active_requests drain not found in disconnect', violation='frappy.client.SecopClient.disconnect:joins and drain present')
     ok = not (cfg.reach(drains) & set(joins))
